@@ -126,6 +126,7 @@ def run(tier, cmd):
     Fs = load_configs(chk, ['K1'], required=('K1',))
     for cfg, F in sorted(Fs.items()):
         guarded(chk, '%s/product/%s' % (PID, cfg), 'product with the reference automaton',
-                lambda F=F: scanners.cell_obligations(chk, F, 'polling', 'product with the reference automaton (poll columns)', kinds=('poll',)))
+                lambda F=F: scanners.cell_obligations(chk, F, 'polling', 'product with the reference automaton (poll columns and the stamping cells)',
+                                                       classes=('poll', 'CC.6', 'CC.38')))
         guarded(chk, '%s/clauses/%s' % (PID, cfg), 'time taint of feed', lambda F=F: clauses(chk, F))
     return chk.finish()
